@@ -37,7 +37,13 @@ pub fn generate(cx: &super::GenCtx) -> Vec<Plan> {
         p.step_cap = 200_000_000;
         p.tick_cap = 800_000_000;
         p.params = J::obj().set("noise", false).set("depth", 7u64).set("large", true);
-        return vec![p];
+        // the same search on a slower machine that also stalls: anything keyed to elapsed
+        // time fires at a different node
+        let mut q = p.clone();
+        q.cost_ns = 7000;
+        q.switch_ns = 50_000;
+        q.stalls = vec![(rng.range(1000, 400_000), 700_000_000), (rng.range(400_000, 3_000_000), 1_300_000_000)];
+        return vec![p, q];
     }
     let spec = gen::random_posspec(&mut rng);
     let d = if spec.dense {
